@@ -1414,6 +1414,107 @@ impl<T: E> World<T> {
           Err(_) => out = "panic",
         }
       }
+      "nthb" => {
+        let i = n(1);
+        needi!(i);
+        let kk = n(2);
+        let is_filter = matches!(self.iters[i].as_ref().unwrap(), It::Filter(..));
+        if kk > 64 || is_filter {
+          self.emit(k, name, "skip", "-");
+          return;
+        }
+        let it = self.iters[i].as_mut().unwrap();
+        let r = lib(|| match it {
+          It::Drain(_, d) => d.nth_back(kk),
+          It::Splice(_, d) => d.nth_back(kk),
+          It::Filter(..) => None,
+          It::Into(d) => d.nth_back(kk),
+        });
+        match r {
+          Ok(x) => {
+            ret = match &x {
+              Some(e) => format!("s{}", e.id()),
+              None => "n".into(),
+            };
+            if let Some(e) = &x {
+              if T::TRACKED && !e.valid() {
+                self.monitor("garbage_yielded".into());
+              }
+              self.iyield[i].push(e.id());
+            }
+            if let Some(sh) = self.ishadow[i].as_mut() {
+              let mut exp = None;
+              for _ in 0..=kk {
+                exp = sh.pop_back();
+                if exp.is_none() {
+                  break;
+                }
+              }
+              if self.shadow_ok && exp != x.as_ref().map(|e| e.pay()) {
+                self.monitor("iter_protocol:nth_back".into());
+              }
+            }
+          }
+          Err(_) => out = "panic",
+        }
+      }
+      "count" | "last" => {
+        // Iterator::count / Iterator::last consume the iterator; the (exhausted) iterator object is kept
+        // so that the history can still drop or forget it: they run through `by_ref()`
+        let i = n(1);
+        needi!(i);
+        let it = self.iters[i].as_mut().unwrap();
+        let is_filter = matches!(it, It::Filter(..));
+        let want = self.ishadow[i].as_ref().map(|sh| (sh.len(), sh.back().cloned()));
+        if name == "count" {
+          match lib(|| match it {
+            It::Drain(_, d) => d.by_ref().count(),
+            It::Splice(_, d) => d.by_ref().count(),
+            It::Filter(_, d) => d.by_ref().count(),
+            It::Into(d) => d.by_ref().count(),
+          }) {
+            Ok(c) => {
+              ret = c.to_string();
+              if !is_filter && self.shadow_ok {
+                if let Some((l, _)) = want {
+                  if l != c {
+                    self.monitor("iter_protocol:count".into());
+                  }
+                }
+              }
+            }
+            Err(_) => out = "panic",
+          }
+        } else {
+          match lib(|| match it {
+            It::Drain(_, d) => d.by_ref().last(),
+            It::Splice(_, d) => d.by_ref().last(),
+            It::Filter(_, d) => d.by_ref().last(),
+            It::Into(d) => d.by_ref().last(),
+          }) {
+            Ok(x) => {
+              ret = match &x {
+                Some(e) => format!("s{}", e.id()),
+                None => "n".into(),
+              };
+              if let Some(e) = &x {
+                self.iyield[i].push(e.id());
+              }
+              if !is_filter && self.shadow_ok {
+                if let Some((_, b)) = want {
+                  if b != x.as_ref().map(|e| e.pay()) {
+                    self.monitor("iter_protocol:last".into());
+                  }
+                }
+              }
+            }
+            Err(_) => out = "panic",
+          }
+        }
+        if let Some(sh) = self.ishadow[i].as_mut() {
+          sh.clear();
+        }
+      }
       "hint" => {
         let i = n(1);
         needi!(i);
